@@ -608,10 +608,56 @@ pub fn search_all(reader: &IndexReader) -> anyhow::Result<Observed> {
   Ok(Observed { hits })
 }
 
+/// Within one reader, the postings (term queries) and the fast fields
+/// (keyword / range filters) must agree with the stored fields of the live
+/// documents. Run on a content-determined third of the observations.
+pub fn cross_check(reader: &IndexReader, obs: &Observed) -> anyhow::Result<()> {
+  let key: u64 = obs.hits.iter().map(|(_, s)| s.get("n").and_then(|n| n.as_u64()).unwrap_or(0)).sum();
+  if obs.hits.is_empty() || key % 3 != 0 {
+    return Ok(());
+  }
+  let ids_where = |pred: &dyn Fn(&Value) -> bool| -> Vec<String> {
+    let mut v: Vec<String> = obs.hits.iter().filter(|(_, s)| pred(s)).map(|(id, _)| id.clone()).collect();
+    v.sort();
+    v
+  };
+  let run = |req: Value| -> anyhow::Result<Vec<String>> {
+    let r: SearchRequest = serde_json::from_value(req)?;
+    let mut v: Vec<String> = reader.search(&r)?.hits.into_iter().map(|h| h.doc_id).collect();
+    v.sort();
+    Ok(v)
+  };
+  let word = WORDS[(key / 3 % 6) as usize];
+  let want = ids_where(&|s| s.get("body").and_then(|b| b.as_str()).map(|b| b.split(' ').any(|t| t == word)).unwrap_or(false));
+  let got = run(json!({"query": {"type": "term", "field": "body", "value": word}, "limit": 10000, "return_stored": false}))?;
+  if want != got {
+    anyhow::bail!("term query body:{} returns {:?} but the stored fields of the same reader say {:?}", word, got, want);
+  }
+  let tag = TAGS[(key / 18 % 4) as usize];
+  let want = ids_where(&|s| match s.get("tag") {
+    Some(Value::String(t)) => t == tag,
+    Some(Value::Array(a)) => a.iter().any(|t| t.as_str() == Some(tag)),
+    _ => false,
+  });
+  let got = run(json!({"query": {"type": "match_all"}, "filter": {"KeywordEq": {"field": "tag", "value": tag}}, "limit": 10000, "return_stored": false}))?;
+  if want != got {
+    anyhow::bail!("filter tag={} returns {:?} but the stored fields of the same reader say {:?}", tag, got, want);
+  }
+  let pivot = (key / obs.hits.len() as u64) as i64;
+  let want = ids_where(&|s| s.get("n").and_then(|n| n.as_i64()).map(|n| n <= pivot).unwrap_or(false));
+  let got = run(json!({"query": {"type": "match_all"}, "filter": {"I64Range": {"field": "n", "min": 0, "max": pivot}}, "limit": 10000, "return_stored": false}))?;
+  if want != got {
+    anyhow::bail!("filter n<={} returns {:?} but the stored fields of the same reader say {:?}", pivot, got, want);
+  }
+  Ok(())
+}
+
 pub fn observe_index(index: &Index) -> Result<Observed, Outcome> {
   guarded(|| {
     let reader = index.reader()?;
-    search_all(&reader)
+    let obs = search_all(&reader)?;
+    cross_check(&reader, &obs)?;
+    Ok(obs)
   })
 }
 
